@@ -30,6 +30,7 @@ type Config struct {
 	MaxDocSize int       `json:"maxDocSize,omitempty"`
 	Keys       []string  `json:"keys,omitempty"` // document keys of this world (default: the profile's)
 	Feeds      []FeedCfg `json:"feeds,omitempty"`
+	Late       int       `json:"late,omitempty"` // the last Late entries of Colls do not exist at the start (created later by CreateColl)
 }
 
 // FeedCfg describes a live feed started when the world is created.
@@ -44,7 +45,7 @@ var worldSerial int64
 
 var defaultMaxDocSize = rosmar.MaxDocSize
 
-var allCollNames = []string{"_default._default", "s1.c1", "s1.c2"}
+var allCollNames = []string{"_default._default", "s1.c1", "s1.c2", "s2.c1"}
 
 func dsName(s string) sgbucket.DataStoreNameImpl {
 	for i := 0; i < len(s); i++ {
@@ -131,8 +132,8 @@ func NewWorldAt(cfg Config, dir, name string, existing bool) (*World, error) {
 		return nil, err
 	}
 	// create the named collections through handle 0
-	for _, cn := range w.Cfg.Colls[1:] {
-		if existing {
+	for i, cn := range w.Cfg.Colls[1:] {
+		if existing || i+1 >= len(w.Cfg.Colls)-w.Cfg.Late {
 			break
 		}
 		if err := w.Handles[0].CreateDataStore(ctx, dsName(cn)); err != nil {
@@ -141,6 +142,11 @@ func NewWorldAt(cfg Config, dir, name string, existing bool) (*World, error) {
 		}
 	}
 	w.Model = NewModel(len(w.Cfg.Colls))
+	for i := len(w.Cfg.Colls) - w.Cfg.Late; i < len(w.Cfg.Colls); i++ {
+		if i > 0 {
+			w.Model.Colls[i].Dropped = true
+		}
+	}
 	for _, fc := range w.Cfg.Feeds {
 		c, err := w.StartLiveFeed(fc)
 		if err != nil {
